@@ -217,6 +217,17 @@ fn svd_from_vectors<const D: usize>(
         scales[i] = vecs.iter().map(|p| p.dot(&basis[i]).powi(2)).sum::<f64>().sqrt();
     }
 
+    // Keep the axes ordered by non-increasing singular value after the recomputation (the recomputed values of
+    // numerically zero directions can swap at noise level)
+    for i in 1..D {
+        let mut j = i;
+        while j > 0 && scales[j] > scales[j - 1] {
+            scales.swap(j, j - 1);
+            basis.swap(j, j - 1);
+            j -= 1;
+        }
+    }
+
     SvdBasis {
         basis,
         sv: scales,
